@@ -6,9 +6,9 @@ PROPERTY = "C12"
 LEVEL = "model_checking"
 BUDGET = {"quick": 240, "thorough": 2400}
 BOUNDS = {"quick": "collision structure: <= 2 existing x <= 2 new pairs with keys chosen by the solver from {a, b, c}; text: one key or one value "
-                   "of 1 free code point (all of Unicode, no lone surrogates) among concrete neighbours; one symbolic int in [-10^6, 10^6]; all "
+                   "of <= 2 free code points (all of Unicode, no lone surrogates) among concrete neighbours; one symbolic int in [-10^6, 10^6]; all "
                    "argument forms (str, dict, MultiDict, sequence of pairs, kwargs); rejected types concretely",
-          "thorough": "<= 3 existing x <= 3 new pairs; texts of 2 free code points"}
+          "thorough": "<= 3 existing x <= 3 new pairs; value texts of <= 3 free code points"}
 ASSUMPTIONS = ["read-back goes through the models of urllib.parse.parse_qsl and multidict (its own pure-Python reference, instrumented; DESIGN 2.4), "
                "validated per path against the real parse_qsl and the compiled multidict (concordance)",
                "float rendering, bool/None/NaN/inf/bytes rejection and the argument-form dispatch are a finite type matrix executed concretely in the "
@@ -244,7 +244,7 @@ def families(tier):
     fams = []
     mo, mn = (2, 2) if q else (3, 3)
     for op in ("with", "extend", "update"):
-        for form in ("list", "multidict", "str") + (() if q else ("tuple",)):
+        for form in ("list", "multidict", "str", "tuple"):
             for no in range(0, mo + 1):
                 for nn in range(1, mn + 1):
                     if op == "with" and no > 1:
@@ -258,7 +258,7 @@ def families(tier):
             for form in ("list", "multidict", "dict", "dict-list", "kwargs"):
                 if where == "key" and form in ("dict", "dict-list", "kwargs"):
                     continue
-                for n in ((1,) if q else (1, 2)):
+                for n in ((1, 2) if q or where == "key" else (1, 2, 3)):
                     fams.append(Family("text/%s/%s/%s/n=%d" % (op, where, form, n), h_text, dict(where=where, op=op, form=form, n=n)))
         fams.append(Family("int/%s" % op, h_int, dict(op=op)))
     fams.append(Family("types", h_types, {}))
